@@ -477,7 +477,7 @@ def render(prog):
 _IDENT = re.compile(r"[A-Z][A-Z0-9_]*")
 
 
-def evolve(r, prog, pair_bias=0.0):
+def evolve(r, prog, pair_bias=0.0, remove_mentioned=0.0):
     """A new *version* of a program: changed default / condition / range / prompt
     condition, added or removed option (DESIGN.md 2.7)."""
     p = copy.deepcopy(prog)
@@ -561,9 +561,13 @@ def evolve(r, prog, pair_bias=0.0):
             p["items"].append(e)
             log.append(("add", name))
         elif k == "remove" and not inch:
-            # only options nobody mentions
+            # only options nobody mentions - unless asked otherwise: an expression may go on naming an option that is no
+            # longer defined (it then evaluates as n), which is how options usually disappear from a real tree
             txt = render(p)
-            if len(re.findall(r"\b%s\b" % c["name"], txt)) == 1 and not c.get("menuconfig"):
+            mentioned = len(re.findall(r"\b%s\b" % c["name"], txt)) != 1
+            if (not mentioned or (r.random() < remove_mentioned and not any(
+                    c["name"] == t for x in configs for t, _c in x["selects"] + x["implies"]) and not any(
+                    c["name"] == t for x in configs for _k, t, _v, _c in x["sets"]))) and not c.get("menuconfig"):
                 _remove(p["items"], c)
                 configs.remove(c)
                 names.remove(c["name"])
